@@ -113,7 +113,13 @@ def execute(c):
     if c["op"] == "float":
         for k in ("d", "c", "e"):
             c.pop(k, None)
-        z = ws2d(np.array([float(v) for v in y]), float(lam), np.array([float(v) for v in w]))
+        ty = c.get("types")
+        if ty:
+            # the public core accepts any numeric arrays and a Python int for lambda: the same numbers in other argument types
+            lam_arg = int(lam) if ty["lam"] == "int" else float(lam)
+            z = ws2d(np.array([float(v) for v in y]).astype(ty["y"]), lam_arg, np.array([float(v) for v in w]).astype(ty["w"]))
+        else:
+            z = ws2d(np.array([float(v) for v in y]), float(lam), np.array([float(v) for v in w]))
         c["z"] = [core.rat(v) for v in z.tolist()]
     return c
 
@@ -194,6 +200,19 @@ def gen_cases(tier, seed):
         if kind == "microall":
             lam = rng.choice([1e-6, 2e-6, 1e-5])     # keeps 16 lam / mean(w) (the conditioning) moderate
         add({"op": "float", "y": [fl(v) for v in data(n)], "w": [fl(v) for v in weights(rng, n, kind)], "lam": fl(lam), "wkind": kind})
+    # argument types: integer / bool / single-precision weights, integer or single-precision data, lambda as a Python int
+    # (numbers chosen exactly representable in every type, so the exact contract sees the same instance)
+    combos = [("float64", "int64", "int"), ("float64", "uint8", "int"), ("float64", "bool", "int"), ("float64", "bool", "float"), ("float64", "float32", "int"),
+              ("int16", "float64", "int"), ("float32", "int64", "float"), ("int16", "uint8", "int")]
+    for ci, (ty, tw, tl) in enumerate(combos if quick else combos * 4):
+        for _ in range(2):
+            n = rng.choice([6, 9, 12, 24])
+            wmax = 1 if tw == "bool" else rng.choice([1, 4])
+            w = [float(rng.randint(0, wmax)) for _ in range(n)]
+            for j in rng.sample(range(n), 3):
+                w[j] = 1.0
+            add({"op": "float", "y": [fl(float(rng.randint(-10000, 10000))) for _ in range(n)], "w": [fl(v) for v in w], "lam": fl(float(rng.choice([1, 10, 100, 1000]))),
+                 "wkind": "argtypes", "types": {"y": ty, "w": tw, "lam": tl}})
     if not quick:
         for n in (200, 300, 400):
             for kind, lam in (("mid", 1e8), ("lead", 1e-6), ("ones", 1.0)):
